@@ -15,6 +15,8 @@
    false), store never fails, the topic is not unloaded once loaded.
    Go >= 1.23 timer semantics: after Stop/Reset no stale tick is delivered, so
    "the timer case runs" iff the timer is armed.
+   The model follows the code WITH the repair findings/C15_deleted.diff (handleCallEvent ignores a
+   sender whose subscription is deleted); the handler as it was is kept as [_unrepaired].
    Re-subscription of an unsubscribed participant and the unsubscription of both
    participants (topic deletion) are outside the model (the generator never does it).
 
@@ -190,8 +192,11 @@ Definition unregister_call (cfg : config) (st : state) (s : sid) : state * list 
   | None => (st, [])
   end.
 
-(* handleCallEvent(msg) for msg.sess = s, msg.AsUser = user_of s *)
-Definition handle_call_event (cfg : config) (st : state) (s : sid) (e : event) (seq : Z) (payload : N)
+(* handleCallEvent(msg) for msg.sess = s, msg.AsUser = user_of s.
+   [gone] is the test applied to the sender's perUser entry besides its existence:
+   the code as repaired (fix: findings/C15_deleted.diff) ignores a sender whose subscription is
+   marked deleted (`!userFound || pud.deleted`); before the repair only `!userFound` was tested. *)
+Definition handle_call_event_with (gone : pud -> bool) (cfg : config) (st : state) (s : sid) (e : event) (seq : Z) (payload : N)
     : state * list out :=
   match current st with
   | None => (st, [])
@@ -201,7 +206,8 @@ Definition handle_call_event (cfg : config) (st : state) (s : sid) (e : event) (
       let as_uid := user_of cfg s in
       match lookup as_uid (users st) with
       | None => (st, [])
-      | Some _ =>
+      | Some pd =>
+        if gone pd then (st, []) else
         match e with
         | EvRinging | EvAccept =>
           if accepted c then (st, [])
@@ -236,6 +242,9 @@ Definition handle_call_event (cfg : config) (st : state) (s : sid) (e : event) (
         end
       end
   end.
+
+Definition handle_call_event := handle_call_event_with p_deleted.
+Definition handle_call_event_unrepaired := handle_call_event_with (fun _ => false).
 
 (* events which Session.note routes through the hub when the session is not attached *)
 Definition hub_routed (e : event) : bool :=
@@ -329,6 +338,37 @@ Fixpoint run (cfg : config) (st : state) (ops : list op) : state * list (list ou
   end.
 
 Definition final (cfg : config) (st : state) (ops : list op) : state := fst (run cfg st ops).
+
+(* the same machine with the handler as it was before the repair (kept for the refutation
+   c15_roles_subscribed_unrepaired_refuted) *)
+Definition step_raw_unrepaired (cfg : config) (st : state) (o : op) : state * list out :=
+  match o with
+  | OEvent s e seq payload =>
+    if seq <=? 0 then (st, [])
+    else if mem s (attached st) || (hub_routed e && loaded st) then
+      if lastid st <? seq then (st, []) else handle_call_event_unrepaired cfg st s e seq payload
+    else if hub_routed e then (st, [])
+    else (st, [(s, FCtrl 409 None)])
+  | _ => step_raw cfg st o
+  end.
+
+Definition step_unrepaired (cfg : config) (st : state) (o : op) : state * list out :=
+  match op_sid o with
+  | Some s => if negb (known cfg s) || mem s (dead st) then (st, [])
+              else let '(st', os) := step_raw_unrepaired cfg st o in
+                   (st', filter (fun so => negb (mem (fst so) (dead st'))) os)
+  | None => let '(st', os) := step_raw_unrepaired cfg st o in
+            (st', filter (fun so => negb (mem (fst so) (dead st'))) os)
+  end.
+
+Fixpoint run_unrepaired (cfg : config) (st : state) (ops : list op) : state * list (list out) :=
+  match ops with
+  | [] => (st, [])
+  | o :: r => let '(st1, os) := step_unrepaired cfg st o in
+              let '(st2, oss) := run_unrepaired cfg st1 r in (st2, os :: oss)
+  end.
+
+Definition final_unrepaired (cfg : config) (st : state) (ops : list op) : state := fst (run_unrepaired cfg st ops).
 
 (* the fresh p2p topic of users a and b *)
 Definition init2 (a b : uid) : state :=
